@@ -12,13 +12,13 @@ PROP = {'engine': 'c20',
          'ConfirmMsg (also before their blocks, duplicates), ConfirmsMsg packs and TxsMsg batches (1-8 transactions incl. repeats and invalid ones) in a '
          'seeded order (uniform shuffle, reverse, all confirms first, near order, separate islands of orphans), with barriers on the drain timer; the '
          "remotes answer the node's GetBlocksMsg / GetConfirmsMsg / GetLstStatusMsg from the segment (immediately or only after the scripted "
-         'deliveries), some announce the segment top in their handshake (range sync). Logical time = finished drains of the block cache (the '
+         'deliveries), some announce the segment top in their handshake (range sync), in a third of the histories one more remote joins late, takes over deliveries and leaves again. Logical time = finished drains of the block cache (the '
          "manager's own loop notifications). Oracle: after every message was delivered and at most len(segment)+5 drains, CurrentBlock and StableBlock "
          'hashes equal those of a twin that received the same blocks and confirms in order; after at most 3 drains every valid transaction of every '
          'TxsMsg is in the pool exactly once (GetTxs with a time below every expiration). (2) cache level: network.BlockCache (Add before / between / '
          'after / equal to cached heights, siblings, repeats, Remove, Clear, consuming Iterate) and network.ConfirmCache (Push, Pop, Clear) in lock-step '
          'with a sorted multimap model; after every operation Size, FirstHeight, iteration content and ascending order / stored confirms are compared. '
-         'Fixed regression list in every tier and seed (5 PM histories, 8 cache histories incl. more than 10240 heights). distinct = distinct (mode, '
+         'Fixed regression list in every tier and seed (12 PM histories: the two design-time findings, orphan islands, all confirms first, every block twice, remotes that announce / join / leave while blocks stabilise, a confirm resp. a second copy of a block arriving while that block is being inserted; 8 cache histories incl. more than 10240 heights). distinct = distinct (mode, '
          'deputies, segment length, remotes, announcing remotes, deferred serving, duplicate / confirm / batch count buckets, barriers) resp. (cache, op-kind count buckets); '
          'non-trivial = at least two blocks and one delivery (PM), at least three kinds of operation (cache)',
  'assumptions': ['every confirm signature that the in-order twin receives is delivered to the node at least once as a ConfirmMsg; confirms embedded in blocks '
